@@ -53,11 +53,12 @@ func (w *World) findKeyShapes(t *Term) []Shape {
 }
 
 // clientVerifyRule checks one Verify* method of one client type:
-//   .height     success requires !(latestHeight < proofHeight)
-//   .consensus  success requires the consensus state fetched from the given store at the proof height
-//   .delay      success requires the client's confirmation delay to have elapsed
-//   .member     success passes the membership call, with root from that consensus state,
-//               key derived from (source,dest[,sequence]) in the protocol key class, and the claimed value
+//
+//	.height     success requires !(latestHeight < proofHeight)
+//	.consensus  success requires the consensus state fetched from the given store at the proof height
+//	.delay      success requires the client's confirmation delay to have elapsed
+//	.member     success passes the membership call, with root from that consensus state,
+//	            key derived from (source,dest[,sequence]) in the protocol key class, and the claimed value
 func (k *K) clientVerifyRule(prefix, ct, method string) {
 	fi := k.method(ct, "ClientState", method)
 	if fi == nil {
